@@ -23,7 +23,7 @@ CONFIG = {'assumptions': [
     'the hashed part of a SysV table is indices 1..n-1 (index 0 is STN_UNDEF, the chain terminator), of a GNU table symoffset..n-1',
     'the ELF header and section headers of the synthesized image are written by the harness (they are C01 subject matter); '
     'linked-section type validation (elffile.py _get_linked_*) is exercised by opening the image but has no theorem here']}
-LEVEL = {'text': 'Machine-checked (41 theorems, no axioms), all for unbounded sizes and BOTH classes/byte orders: a symbol table of any '
+LEVEL = {'text': 'Machine-checked (42 theorems, no axioms), all for unbounded sizes and BOTH classes/byte orders: a symbol table of any '
                  'length and any sh_entsize >= the standard entry, placed anywhere in any image with its string table placed anywhere, '
                  'is enumerated to exactly the encoded entries in index order (every field; names through the string table), '
                  'get_symbol(i) and num_symbols are exact, get_symbol_by_name returns exactly the symbols bearing the name in order or '
@@ -32,7 +32,7 @@ LEVEL = {'text': 'Machine-checked (41 theorems, no axioms), all for unbounded si
                  'wf_gnu_hash (no builder is trusted) SysV and GNU lookups are sound (a returned symbol bears the name and lies in the '
                  'hashed part), complete (a present name is found) and return None without error for every absent name (bucket, '
                  'full-hash and bloom collisions, chain ending at end of file), and both symbol counts are exact - proved both for an '
-                 'abstract symbol source and for the section classes over a file image (header round trip of Elf_Hash/Gnu_Hash '
+                 'abstract symbol source and for the section classes over a file image of ANY e_machine: the SysV entry width (64-bit on ELF64 Alpha/s390x, else 32-bit) the live code chooses is proved to be the psABI one (C03_hash_entry_width) and the section theorems are stated for that width, while the GNU section has 32-bit words on every machine (header round trip of Elf_Hash/Gnu_Hash '
                  'included). Layouts and enum tables regenerated from the live code are proved equal to the gABI ones. The hand models '
                  '(loops, dict building, cursor handling) are tied to the code by differential correspondence on synthesized ELF '
                  'images with adversarial hash parameters; every generated table is certified in-domain by the extracted wf predicates.',
@@ -58,7 +58,11 @@ RULE = ('cases: (a) hash functions on byte strings (random ASCII/UTF-8/raw bytes
         '.symtab_shndx .SUNW_syminfo .hash .gnu.hash: up to three live iter_symbols generators and two syminfo generators advanced one '
         'step at a time and RESUMED after get_symbol, lookups by name, SysV/GNU hash lookups and counts, get_section_index, '
         'get_string, other sections\' data(), get_section and explicit stream.seek; the model runs under the cursor schedule '
-        'stream.tell() actually observed before each call. distinct = hash(kind, abstract); non-trivial = a table with >= 2 symbols, or a hash-function input of '
+        'stream.tell() actually observed before each call. Every table / history / file case hands the library one of the stream '
+        'kinds of tools/lib/streams.py (BytesIO half of the time, else real file, warm, at EOF, 16-byte buffer, mmap, gzip, decoy fd), a '
+        'function of the case seed; e_machine is drawn from a list that includes EM_S390 and EM_ALPHA (ELF64: 64-bit SysV entries encoded by '
+        'the spec, ordinary GNU hash); 30 cases have 65..700-byte names placed about one read-buffer length (4096 / 8192) behind their '
+        'entries so that they straddle buffer ends on real files; 4 cases have 1-2 buckets over 66..260 symbols. distinct = hash(kind, abstract); non-trivial = a table with >= 2 symbols, or a hash-function input of '
         '>= 2 bytes')
 
 SHT = {'NULL': 0, 'SYMTAB': 2, 'STRTAB': 3, 'HASH': 5, 'DYNSYM': 11, 'SYMTAB_SHNDX': 18,
